@@ -140,19 +140,19 @@ func short(d ociregistry.Digest) string {
 
 // Res is what an operation returned.
 type Res struct {
-	Err      error
-	Desc     ociregistry.Descriptor
-	Data     []byte // bytes read to EOF
-	ReadErr  error  // error that ended the read instead of EOF
-	Items    []string
-	Descs    []ociregistry.Descriptor
-	ListErr  error // error delivered by the iterator
-	ExtraCalls int // calls of the consumer after it declined or after an error
-	N        int
-	Size     int64
-	ID       string
-	Chunk    int
-	Panicked any
+	Err        error
+	Desc       ociregistry.Descriptor
+	Data       []byte // bytes read to EOF
+	ReadErr    error  // error that ended the read instead of EOF
+	Items      []string
+	Descs      []ociregistry.Descriptor
+	ListErr    error // error delivered by the iterator
+	ExtraCalls int   // calls of the consumer after it declined or after an error
+	N          int
+	Size       int64
+	ID         string
+	Chunk      int
+	Panicked   any
 }
 
 func (r *Res) String() string {
@@ -427,7 +427,6 @@ func Exec(ctx context.Context, r ociregistry.Interface, op *Op, h *Handles) (res
 	}
 	return res
 }
-
 
 func openReader(ctx context.Context, r ociregistry.Interface, op *Op) (ociregistry.BlobReader, error) {
 	switch op.Kind {
